@@ -22,6 +22,9 @@ CHECKS = {
  "C12": ("exploration", "reference-model oracle (map id->bytes) over real badger store, public RPC server and admin service; differential isolation against a single-stream store",
          "Random multisets of VAAs over prefix-related chain ids (2/25/255, 1/10/10001, 4/42), overlapping sequences and overwrites are stored in a real badger store; every stored id, its near misses and all neighbouring streams are queried through db, PublicrpcServer (GetSignedVAA, Get*VAABatch) and admin FindMissingMessages; answers must equal the model and, for gap scans, the answer of a second store holding only that stream.",
          "Sequence windows 0..41; non-empty payloads. An empty stream may report sequence 0 as missing (streams start at 0).", "3/C12"),
+ "C13": ("exploration", "panic monitor: recover() around real handlers over adversarial histories; child processes running the real Run loop under the real supervisor with panic propagation",
+         "Adversarial histories over all seven processor inputs (nil/empty/1 MiB payloads, extreme timestamps, malformed observations and inbound bytes, injections before any guardian set, empty/foreign sets, age + cleanup ticks anywhere, complete-store-observe-again patterns) are replayed against the real handlers; a recovered panic is a violation whose class is the innermost repository function on the stack. A share is replayed in child processes through the real Run loop under supervisor.WithPropagatePanic: a panic there is observed as the process exit the property is about.",
+         "Cleanup ticks are driven only in direct mode (logical ageing through the VerifAge hook).", "3/C13"),
  "C16": ("fault_enumeration", "SIGKILL injection into writer child processes at PRNG-chosen points; fresh verifier process checks every acknowledged id",
          "Writer children stream unique (cycle,seq,version) VAAs of 100 B..256 KiB (with overwrites) into one badger directory through the real db.StoreSignedVAA and acknowledge each on a pipe; the parent SIGKILLs them after the k-th ACK + delay, right after a BEGIN, during open, or kills the verifier during its own reopen; after every kill a fresh process reopens the directory and looks up every id of all cycles: acknowledged => exact bytes of the acknowledged (or a later begun) version, unacknowledged => not-found or exact bytes, never anything else; reopen must succeed.",
          "Process kill only (page cache survives), as the property states; kill points are sampled, not enumerated at instruction granularity.", "3/C16"),
